@@ -62,6 +62,7 @@ func statusAnswerJ(rs verifiable.RevocationStatus, err error) any {
 }
 
 type resolverCfg struct {
+	errDoc   int               // what accompanies an error: 0 an empty document, 1 a document saying "published", 2 one without the flag
 	mode     string            // published | unpublished | nil | noinfo | error: the answer for any state not listed in perState
 	perState map[string]string // state (hex, as in the DID URL query "state=<hex>") -> mode: a resolver that knows which states were published
 }
@@ -96,6 +97,15 @@ func (c resolverCfg) resolver(calls *int) verifiable.DIDResolver {
 			return didDocPublished(nil), nil
 		case "noinfo":
 			return verifiable.DIDDocument{}, nil
+		}
+		// a failed resolution may still hand back a document (the last one the resolver knew, a template): with an error there
+		// is no answer, whatever came with it
+		if c.errDoc%3 == 1 {
+			t := true
+			return didDocPublished(&t), errors.New("resolver unavailable (stale document attached)")
+		}
+		if c.errDoc%3 == 2 {
+			return didDocPublished(nil), errors.New("resolver unavailable (template attached)")
 		}
 		return verifiable.DIDDocument{}, errors.New("resolver unavailable")
 	}}
@@ -549,6 +559,7 @@ func emitBJJ(out *Out, r *Rng, f bjjFault, later bool) {
 		x.res.mode = "published"
 	}
 	f.apply(s, p, x, r)
+	x.res.errDoc = r.Intn(3)
 	s.vc.Proof = verifiable.CredentialProofs{p}
 	// status registry
 	reg := &verifiable.CredentialStatusResolverRegistry{}
